@@ -499,6 +499,83 @@ func c19Case(c *vc.Ctx, idx int) {
 				}
 			}
 		}
+		// shape variants of the payload: every byte-array field emptied, one byte, one short, one long; requests and
+		// transactions with empty or missing items (the proposal's checks run in goroutines no recover() protects)
+		if p := world.DecodeBlockTx(w, ptxs); p != nil && blk%3 == 1 {
+			type fld struct {
+				name string
+				get  func(q *goatxtypes.ExecutionPayload) *[]byte
+			}
+			flds := []fld{
+				{"parent_hash", func(q *goatxtypes.ExecutionPayload) *[]byte { return &q.ParentHash }},
+				{"fee_recipient", func(q *goatxtypes.ExecutionPayload) *[]byte { return &q.FeeRecipient }},
+				{"state_root", func(q *goatxtypes.ExecutionPayload) *[]byte { return &q.StateRoot }},
+				{"receipts_root", func(q *goatxtypes.ExecutionPayload) *[]byte { return &q.ReceiptsRoot }},
+				{"logs_bloom", func(q *goatxtypes.ExecutionPayload) *[]byte { return &q.LogsBloom }},
+				{"prev_randao", func(q *goatxtypes.ExecutionPayload) *[]byte { return &q.PrevRandao }},
+				{"extra_data", func(q *goatxtypes.ExecutionPayload) *[]byte { return &q.ExtraData }},
+				{"block_hash", func(q *goatxtypes.ExecutionPayload) *[]byte { return &q.BlockHash }},
+				{"beacon_root", func(q *goatxtypes.ExecutionPayload) *[]byte { return &q.BeaconRoot }},
+			}
+			var shapes []*goatxtypes.ExecutionPayload
+			var names []string
+			for _, f := range flds {
+				orig := *f.get(p)
+				for _, ln := range []int{0, 1, len(orig) - 1, len(orig) + 1} {
+					if ln < 0 || ln == len(orig) {
+						continue
+					}
+					q := clonePayload(p)
+					nb := make([]byte, ln)
+					copy(nb, orig)
+					*f.get(q) = nb
+					if f.name != "block_hash" {
+						world.Rehash(q)
+					}
+					shapes = append(shapes, q)
+					names = append(names, fmt.Sprintf("%s of %d bytes", f.name, ln))
+				}
+			}
+			for _, alt := range []struct {
+				name string
+				f    func(q *goatxtypes.ExecutionPayload)
+			}{
+				{"no requests at all", func(q *goatxtypes.ExecutionPayload) { q.Requests = nil }},
+				{"an empty request in front", func(q *goatxtypes.ExecutionPayload) { q.Requests = append([][]byte{{}}, q.Requests...) }},
+				{"an empty request at the end", func(q *goatxtypes.ExecutionPayload) { q.Requests = append(append([][]byte{}, q.Requests...), []byte{}) }},
+				{"an empty transaction in front", func(q *goatxtypes.ExecutionPayload) {
+					q.Transactions = append([][]byte{{}}, q.Transactions...)
+				}},
+				{"an empty transaction in place of the first", func(q *goatxtypes.ExecutionPayload) {
+					if len(q.Transactions) > 0 {
+						q.Transactions = append([][]byte{{}}, q.Transactions[1:]...)
+					}
+				}},
+				{"block number zero", func(q *goatxtypes.ExecutionPayload) { q.BlockNumber = 0 }},
+				{"block number 2^64-1", func(q *goatxtypes.ExecutionPayload) { q.BlockNumber = ^uint64(0) }},
+				{"timestamp 2^64-1", func(q *goatxtypes.ExecutionPayload) { q.Timestamp = ^uint64(0) }},
+			} {
+				q := clonePayload(p)
+				alt.f(q)
+				world.Rehash(q)
+				shapes = append(shapes, q)
+				names = append(names, alt.name)
+			}
+			for vi, q := range shapes {
+				tx, err := ch.BlockTx(0, h, w.ValAddrStr(0), q)
+				if err != nil {
+					continue
+				}
+				record("ProcessProposal payload shape variant: "+names[vi], tx)
+				okp, _ := ch.Process(0, 0, h, t, [][]byte{tx}, lc, nil)
+				c.Eval(1)
+				c.Count("payload_shape_variants_through_process", 1)
+				if okp {
+					c.Count("payload_shape_variants_accepted", 1)
+				}
+				c.Nontrivial("payload shape %s accepted=%v", names[vi], okp)
+			}
+		}
 		// structure-level mutants of the payload's system transactions (run in the unrecovered goroutines of ProcessProposal)
 		if p := world.DecodeBlockTx(w, ptxs); p != nil && nsys(p) > 0 {
 			n := nsys(p)
